@@ -1168,20 +1168,37 @@ LB_changed(LB* self, PyObject* ignored)
 static PyObject*
 _subcache(PyObject* cache, PyObject* key)
 {
+    /* Returns a new reference. Hashing (or comparing) `key` can run
+       arbitrary Python code -- a name that is an instance of a str
+       subclass, an interface class with a Python-level __hash__ -- and
+       that code can drop our caches. Own the dictionary we probe while
+       that can happen, and hand out an owned sub-dictionary. */
     PyObject* subcache;
 
-    subcache = PyDict_GetItem(cache, key);
+    Py_INCREF(cache);
+    subcache = PyDict_GetItemWithError(cache, key);
     if (subcache == NULL) {
         int status;
 
+        if (PyErr_Occurred()) {
+            Py_DECREF(cache);
+            return NULL;
+        }
         subcache = PyDict_New();
-        if (subcache == NULL)
+        if (subcache == NULL) {
+            Py_DECREF(cache);
             return NULL;
+        }
         status = PyDict_SetItem(cache, key, subcache);
-        Py_DECREF(subcache);
-        if (status < 0)
+        if (status < 0) {
+            Py_DECREF(subcache);
+            Py_DECREF(cache);
             return NULL;
+        }
+    } else {
+        Py_INCREF(subcache);
     }
+    Py_DECREF(cache);
 
     return subcache;
 }
@@ -1193,12 +1210,25 @@ _getcache(LB* self, PyObject* provided, PyObject* name)
 
     ASSURE_DICT(self->_cache);
 
+    /* Returns a new reference, see _subcache. */
     cache = _subcache(self->_cache, provided);
     if (cache == NULL)
         return NULL;
 
-    if (name != NULL && PyObject_IsTrue(name))
-        cache = _subcache(cache, name);
+    if (name != NULL) {
+        int has_name = PyObject_IsTrue(name);
+
+        if (has_name < 0) {
+            Py_DECREF(cache);
+            return NULL;
+        }
+        if (has_name) {
+            PyObject* subcache = _subcache(cache, name);
+
+            Py_DECREF(cache);
+            cache = subcache;
+        }
+    }
 
     return cache;
 }
@@ -1259,6 +1289,7 @@ _lookup(LB* self,
     result = PyDict_GetItemWithError(cache, key);
     if (result == NULL && PyErr_Occurred()) {
         /* e.g. an unhashable element of `required` */
+        Py_DECREF(cache);
         Py_DECREF(required);
         return NULL;
     }
@@ -1266,10 +1297,10 @@ _lookup(LB* self,
         int status;
 
         /* The call below runs arbitrary Python code, which can clear our
-           caches (directly, from another thread, ...). Own the cache we
-           are about to store into, so that the worst case is a store
-           into a detached dictionary, not into freed memory. */
-        Py_INCREF(cache);
+           caches (directly, from another thread, ...). We own the cache we
+           are about to store into (_getcache returned a new reference),
+           so that the worst case is a store into a detached dictionary,
+           not into freed memory. */
         result = PyObject_CallMethodObjArgs(
           OBJECT(self), str_uncached_lookup, required, provided, name, NULL);
         if (result == NULL) {
@@ -1286,6 +1317,7 @@ _lookup(LB* self,
         }
     } else {
         Py_INCREF(result);
+        Py_DECREF(cache);
         Py_DECREF(required);
     }
 
@@ -1348,8 +1380,12 @@ _lookup1(LB* self,
         return NULL;
 
     result = PyDict_GetItemWithError(cache, required);
-    if (result == NULL && PyErr_Occurred())
+    if (result == NULL && PyErr_Occurred()) {
+        Py_DECREF(cache);
         return NULL;
+    }
+    Py_XINCREF(result);
+    Py_DECREF(cache);
     if (result == NULL) {
         PyObject* tup;
 
@@ -1362,9 +1398,10 @@ _lookup1(LB* self,
         Py_DECREF(tup);
     } else {
         if (result == Py_None && default_ != NULL) {
+            Py_DECREF(result);
             result = default_;
+            Py_INCREF(result);
         }
-        Py_INCREF(result);
     }
 
     return result;
@@ -1533,14 +1570,14 @@ _lookupAll(LB* self, PyObject* required, PyObject* provided)
 
     result = PyDict_GetItemWithError(cache, required);
     if (result == NULL && PyErr_Occurred()) {
+        Py_DECREF(cache);
         Py_DECREF(required);
         return NULL;
     }
     if (result == NULL) {
         int status;
 
-        /* See the note in _lookup: own the cache across the call. */
-        Py_INCREF(cache);
+        /* See the note in _lookup: we own the cache across the call. */
         result = PyObject_CallMethodObjArgs(
           OBJECT(self), str_uncached_lookupAll, required, provided, NULL);
         if (result == NULL) {
@@ -1557,6 +1594,7 @@ _lookupAll(LB* self, PyObject* required, PyObject* provided)
         }
     } else {
         Py_INCREF(result);
+        Py_DECREF(cache);
         Py_DECREF(required);
     }
 
@@ -1611,14 +1649,14 @@ _subscriptions(LB* self, PyObject* required, PyObject* provided)
 
     result = PyDict_GetItemWithError(cache, required);
     if (result == NULL && PyErr_Occurred()) {
+        Py_DECREF(cache);
         Py_DECREF(required);
         return NULL;
     }
     if (result == NULL) {
         int status;
 
-        /* See the note in _lookup: own the cache across the call. */
-        Py_INCREF(cache);
+        /* See the note in _lookup: we own the cache across the call. */
         result = PyObject_CallMethodObjArgs(
           OBJECT(self), str_uncached_subscriptions, required, provided, NULL);
         if (result == NULL) {
@@ -1635,6 +1673,7 @@ _subscriptions(LB* self, PyObject* required, PyObject* provided)
         }
     } else {
         Py_INCREF(result);
+        Py_DECREF(cache);
         Py_DECREF(required);
     }
 
